@@ -12,9 +12,9 @@ CHECKS = {
 
 T = 'Lean 4 theorems over a model re-translated from source on every run (symbolic trace of the real code, verified symbolic derivative D_sound, kernel-checked linear_combination certificates)'
 CHECKS.update({
-    'C02': dict(engine='calc', technique=T, design='§7 C02',
-                text='DirichletBVP2D: the four edge identities for every point of every edge; IBVP1D DD/DN/ND/NN: initial profile for all x, boundary value or HasDerivAt in x at both ends for all t; boundary data derived from one arbitrary smooth field symbol; all real rectangles x0 != x1, y0 != y1. The irregular-domain (CustomBoundaryCondition) clause is NOT covered (partial).',
-                note='Partial: pde.CustomBoundaryCondition (thin-plate-spline interpolation through np.linalg.solve) is not modelled by this check.'),
+    'C02': dict(engine='calc+state', technique=T, design='§7 C02',
+                text='DirichletBVP2D: the four edge identities for every point of every edge; IBVP1D DD/DN/ND/NN: initial profile for all x, boundary value or HasDerivAt in x at both ends for all t; boundary data derived from one arbitrary smooth field symbol; all real rectangles x0 != x1, y0 != y1; also with ith_unit on a shared 2-output network. Irregular domain: model NdeVerif.Tps (generic scalar: Float in the driver, ℝ in the proofs) with theorems interp_at_control / enforce_at_control (prescribed value at every control point for every network output, given the coefficients solve the captured linear systems), tied to pde.CustomBoundaryCondition by a correspondence on captured systems, rows and random query points, plus the property evaluated at every input control point (star-shaped, U-, L-shaped and same-ray sets).',
+                note='Partial: exactness of np.linalg.solve / conditioning of the thin-plate-spline system is runtime (residual observed each run); Neumann control points are not covered.'),
     'C08': dict(engine='calc', technique=T, design='§7 C08',
                 text='grad/laplacian/div in 1..4 dimensions, curl, vector_laplacian, zero components for omitted coordinates, and the compositions div∘grad, curl∘grad, div∘curl, curl∘curl, laplacian∘laplacian: each traced output equals the textbook expression in partial-derivative atoms of arbitrary field symbols (true partials by D_sound).'),
     'C09': dict(engine='calc', technique=T, design='§7 C09',
